@@ -176,7 +176,16 @@ def param_panel(rep, model):
                     okx = x[0] == 'list' and len(x[1]) == 2 and x[1][1] == span and \
                         mentions(x[1][0], [('col', 'S', 'sample_last_' + side), ('col', 'S', 'sample_next_' + side), timesw])
                     oky = y[0] == 'list' and len(y[1]) == 2 and y[1][1] == thr and mentions(y[1][0], [('col', 'S', 'monotonicity')])
-                    if okx and oky:
+                    xs, ys = (T.strip_nd(x[1][0]) if okx else None), (T.strip_nd(y[1][0]) if oky else None)
+                    if okx and oky and xs[0] == 'concatmap' and ys[0] == 'concatmap':
+                        # per-cycle groups in their normal form: compare exactly (order of the two sides, one value per side)
+                        key = ('range', C(0), Sw[2], C(1))
+                        lv = ('lv', key, 0)
+                        want_xs = ('concatmap', key, ('list', (T.index(timesw, T.index(cols['sample_last_' + side], lv)), T.index(timesw, T.index(cols['sample_next_' + side], lv)))))
+                        want_ys = ('concatmap', key, ('list', (T.index(cols['monotonicity'], lv),) * 2))
+                        rep.compare('PANEL-DATA', inst + ':x', pts[0]['where'] or site, ('list', (xs, x[1][1])), ('list', (want_xs, span)), ctx.unmodelled)
+                        rep.compare('PANEL-DATA', inst + ':y', pts[0]['where'] or site, ('list', (ys, y[1][1])), ('list', (want_ys, thr)), ctx.unmodelled)
+                    elif okx and oky:
                         rep.ok('PANEL-DATA', inst, pts[0]['where'] or site, found='steps from last to next side extremum times; threshold line over the window')
                     else:
                         rep.violation('PANEL-DATA', inst, pts[0]['where'] or site, expected='[step times from the side extrema of the windowed cycles, (times[0], times[-1])] / [parameter per cycle twice, [thresh]*2]',
